@@ -67,6 +67,7 @@ CONF = {
                                         progs=[[NOTIFY(1)], [WAIT(3, 1), POLL(4)], [NEW(5, 2, 2), WAIT(5), FREE(5)], [SWC(4, 1), POLL(2)]])),
     "big_b": (["C08", "C11", "C13"], "q", dict(tree=T((1, 0, NONE), (2, 1, NONE), (3, 1, 1), (4, 0, NONE)), NN=4, CV0=2, MaxNow=1, _sim=(12, 500),
                                                progs=[[WAITN([2, 9, 4], 1), POLL(3)], [CADD(-1), NOTIFY(4)], [WAITN([9, 3]), CADD(-1)], [SWC(2, 1), NOTIFY(1)]])),
+    "x_hb": (["C03"], "q", dict(tree=T((1, 0, NONE)), NN=1, CV0=1, MaxNow=0, progs=[[WAITN([9, 1])], [CADD(-1)]])),
     # C19: allocation failure at every constructor call of tree-building scenarios
     "a_seq": (["C19"], "q", dict(tree=T((1, 0, NONE)), NN=3, progs=[[NEW(2, 1, NONE, 1), NEW(2, 1), NEW(3, 2, 5, 1), NEW(3, 2, 5), NOTIFY(1), POLL(3)]])),
     "a_root": (["C19"], "q", dict(tree=T(), NN=2, progs=[[NEW(1, 0, NONE, 1), NEW(1, 0, 3), NEW(2, 1, 7, 1), NEW(2, 1, 7), POLL(2)]], MaxNow=0)),
